@@ -18,6 +18,8 @@ from ..runner import Prop
 
 METHODS = ["write", "write_vectored", "flush", "write_all", "write_fmt"]
 MODES = ["never", "always_ansi", "strip"]
+# the same streams over pointer-wrapped raw streams (`&mut S`, `Box<S>`: blanket AsLockedWrite impls)
+WRAPPED = [m + w for m in MODES for w in ("@mut", "@box")]
 
 # representative fragments: text, pieces of escape sequences cut at every interesting
 # point, a whole CSI / OSC, multi-byte text, C1 CSI (as UTF-8), newline
@@ -135,7 +137,7 @@ class C19(Prop):
             utf8 = m == "write_fmt" or rng.randrange(2) == 0
             s = gen.grammar_stream(rng, valid_utf8=utf8)
             frs = cut_fragments(rng, s, utf8) if m in ("write_fmt", "write_vectored") else [s]
-            lines.append("lk %s %s %s" % (rng.choice(MODES), m, fr(frs)))
+            lines.append("lk %s %s %s" % (rng.choice(MODES + WRAPPED), m, fr(frs)))
         yield "escape-rich-fragment-lists", lines
 
         lines = []
@@ -156,7 +158,7 @@ class C19(Prop):
                     parts = parts[1:]
             if not ops:
                 ops = ["flush -"]
-            lines.append("lk %s %s" % (rng.choice(MODES), " ".join(ops)))
+            lines.append("lk %s %s" % (rng.choice(MODES + WRAPPED), " ".join(ops)))
         yield "call-sequences-on-one-stream", lines
         yield "call-sequences-on-one-stream(lock-profile-vs-spec)", ["lkp" + l[2:] for l in lines]
 
